@@ -191,7 +191,7 @@ def toRepr : Key → KeyRepr
   | .str s => .string s
 
 def eq (a b : Key) : Bool := KeyRepr.eq a.toRepr b.toRepr
-def cmp (a b : Key) : Ordering := KeyRepr.cmp a.toRepr b.toRepr
+def cmpK (a b : Key) : Ordering := KeyRepr.cmp a.toRepr b.toRepr
 def hashInput (a : Key) : List HashTok := a.toRepr.hashInput
 def WF (a : Key) : Prop := a.toRepr.WF
 
@@ -207,7 +207,7 @@ def Key.asValue : Key → Value
   | .str s => .str false s
 
 /-- `Value::as_key` (`none` = the "Not a valid key type" error). -/
-def Value.asKey : Value → Option Key
+def Value.asKeyK : Value → Option Key
   | .bool b => some (.bool b)
   | .u64 n => some (.u64 n)
   | .i64 n => some (.i64 n)
